@@ -1668,7 +1668,14 @@ impl ExternalSortExec {
         // Build output batches using a simple row-by-row merge
         // For better performance, we'd want to do vectorized merge, but this is memory-safe
         let mut result_batches = Vec::new();
-        let mut output_rows: Vec<(usize, usize)> = Vec::new(); // (run_idx, row_idx)
+        // Pending output rows reference the batch they came from by its slot
+        // in `pending_batches`, NOT by run: a run replaces (or drops) its
+        // buffer as soon as it is exhausted, possibly long before the output
+        // is flushed, and a row index is only meaningful inside the batch it
+        // was taken from.
+        let mut output_rows: Vec<(usize, usize)> = Vec::new(); // (pending batch slot, row_idx)
+        let mut pending_batches: Vec<RecordBatch> = Vec::new();
+        let mut run_slot: Vec<Option<usize>> = vec![None; runs.len()];
 
         // Helper to compare rows
         let compare_rows = |batch_a: &RecordBatch,
@@ -1739,13 +1746,23 @@ impl ExternalSortExec {
             match min_run {
                 None => break, // All runs exhausted
                 Some(run_idx) => {
-                    output_rows.push((run_idx, run_indices[run_idx]));
+                    let slot = match run_slot[run_idx] {
+                        Some(slot) => slot,
+                        None => {
+                            // cheap: columns are Arc'd buffers
+                            pending_batches.push(run_buffers[run_idx].as_ref().unwrap().clone());
+                            run_slot[run_idx] = Some(pending_batches.len() - 1);
+                            pending_batches.len() - 1
+                        }
+                    };
+                    output_rows.push((slot, run_indices[run_idx]));
                     run_indices[run_idx] += 1;
 
                     // Check if current buffer is exhausted
                     if let Some(ref batch) = run_buffers[run_idx] {
                         if run_indices[run_idx] >= batch.num_rows() {
                             // Try to load next batch from this run
+                            run_slot[run_idx] = None;
                             if let Some(next_batch) = run_iterators[run_idx].next() {
                                 run_buffers[run_idx] = Some(next_batch?);
                                 run_indices[run_idx] = 0;
@@ -1757,9 +1774,11 @@ impl ExternalSortExec {
 
                     // Flush output when buffer is full
                     if output_rows.len() >= buffer_rows {
-                        let batch = self.build_merged_batch(&run_buffers, &output_rows)?;
+                        let batch = self.build_merged_batch(&pending_batches, &output_rows)?;
                         result_batches.push(batch);
                         output_rows.clear();
+                        pending_batches.clear();
+                        run_slot.iter_mut().for_each(|s| *s = None);
                     }
                 }
             }
@@ -1767,138 +1786,34 @@ impl ExternalSortExec {
 
         // Flush remaining output
         if !output_rows.is_empty() {
-            // For the final batch, we need to reload any exhausted buffers
-            // that are referenced in output_rows
-            let batch = self.build_merged_batch_final(&runs, &output_rows, buffer_rows)?;
+            let batch = self.build_merged_batch(&pending_batches, &output_rows)?;
             result_batches.push(batch);
         }
 
         Ok(result_batches)
     }
 
-    /// Build a merged batch from the given row references
+    /// Build a merged batch from `(batch slot, row)` references, in order.
     fn build_merged_batch(
         &self,
-        run_buffers: &[Option<RecordBatch>],
+        batches: &[RecordBatch],
         rows: &[(usize, usize)],
     ) -> Result<RecordBatch> {
         if rows.is_empty() {
             return Ok(RecordBatch::new_empty(self.schema.clone()));
         }
 
-        // Group rows by run
-        let mut run_row_groups: HashMap<usize, Vec<(usize, usize)>> = HashMap::new();
-        for (output_idx, &(run_idx, row_idx)) in rows.iter().enumerate() {
-            run_row_groups
-                .entry(run_idx)
-                .or_default()
-                .push((output_idx, row_idx));
-        }
-
-        // Build output columns
         let num_cols = self.schema.fields().len();
-        let mut output_columns: Vec<Vec<(usize, ArrayRef)>> = vec![Vec::new(); num_cols];
-
-        for (run_idx, row_list) in run_row_groups {
-            if let Some(ref batch) = run_buffers[run_idx] {
-                let take_indices: Vec<u32> = row_list.iter().map(|(_, r)| *r as u32).collect();
-                let indices_arr = UInt32Array::from(take_indices);
-
-                for col_idx in 0..num_cols.min(batch.num_columns()) {
-                    let taken = compute::take(batch.column(col_idx), &indices_arr, None)?;
-                    for (i, (out_idx, _)) in row_list.iter().enumerate() {
-                        let single =
-                            compute::take(&taken, &UInt32Array::from(vec![i as u32]), None)?;
-                        output_columns[col_idx].push((*out_idx, single));
-                    }
-                }
-            }
+        let mut columns: Vec<ArrayRef> = Vec::with_capacity(num_cols);
+        for col_idx in 0..num_cols {
+            let arrays: Vec<&dyn arrow::array::Array> = batches
+                .iter()
+                .map(|b| b.column(col_idx).as_ref())
+                .collect();
+            columns.push(compute::interleave(&arrays, rows)?);
         }
 
-        // Sort and concatenate columns
-        let mut final_columns: Vec<ArrayRef> = Vec::new();
-        for col_parts in output_columns {
-            let mut sorted_parts = col_parts;
-            sorted_parts.sort_by_key(|(idx, _)| *idx);
-            let arrays: Vec<&dyn arrow::array::Array> =
-                sorted_parts.iter().map(|(_, arr)| arr.as_ref()).collect();
-            if arrays.is_empty() {
-                final_columns.push(arrow::array::new_null_array(
-                    self.schema.field(final_columns.len()).data_type(),
-                    rows.len(),
-                ));
-            } else {
-                final_columns.push(compute::concat(&arrays)?);
-            }
-        }
-
-        RecordBatch::try_new(self.schema.clone(), final_columns).map_err(Into::into)
-    }
-
-    /// Build final merged batch, reloading data from files if needed
-    fn build_merged_batch_final(
-        &self,
-        runs: &[PathBuf],
-        rows: &[(usize, usize)],
-        _buffer_rows: usize,
-    ) -> Result<RecordBatch> {
-        if rows.is_empty() {
-            return Ok(RecordBatch::new_empty(self.schema.clone()));
-        }
-
-        // For the final batch, we may need to re-read some runs
-        // Group by run and load only what we need
-        let mut run_row_groups: HashMap<usize, Vec<(usize, usize)>> = HashMap::new();
-        for (output_idx, &(run_idx, row_idx)) in rows.iter().enumerate() {
-            run_row_groups
-                .entry(run_idx)
-                .or_default()
-                .push((output_idx, row_idx));
-        }
-
-        let num_cols = self.schema.fields().len();
-        let mut output_columns: Vec<Vec<(usize, ArrayRef)>> = vec![Vec::new(); num_cols];
-
-        for (run_idx, row_list) in run_row_groups {
-            // Read the run
-            let batches = read_parquet(&runs[run_idx])?;
-            if batches.is_empty() {
-                continue;
-            }
-
-            // Concatenate all batches from this run
-            let combined = compute::concat_batches(&batches[0].schema(), &batches)?;
-
-            let take_indices: Vec<u32> = row_list.iter().map(|(_, r)| *r as u32).collect();
-            let indices_arr = UInt32Array::from(take_indices);
-
-            for col_idx in 0..num_cols.min(combined.num_columns()) {
-                let taken = compute::take(combined.column(col_idx), &indices_arr, None)?;
-                for (i, (out_idx, _)) in row_list.iter().enumerate() {
-                    let single = compute::take(&taken, &UInt32Array::from(vec![i as u32]), None)?;
-                    output_columns[col_idx].push((*out_idx, single));
-                }
-            }
-        }
-
-        // Sort and concatenate columns
-        let mut final_columns: Vec<ArrayRef> = Vec::new();
-        for col_parts in output_columns {
-            let mut sorted_parts = col_parts;
-            sorted_parts.sort_by_key(|(idx, _)| *idx);
-            let arrays: Vec<&dyn arrow::array::Array> =
-                sorted_parts.iter().map(|(_, arr)| arr.as_ref()).collect();
-            if arrays.is_empty() {
-                final_columns.push(arrow::array::new_null_array(
-                    self.schema.field(final_columns.len()).data_type(),
-                    rows.len(),
-                ));
-            } else {
-                final_columns.push(compute::concat(&arrays)?);
-            }
-        }
-
-        RecordBatch::try_new(self.schema.clone(), final_columns).map_err(Into::into)
+        RecordBatch::try_new(self.schema.clone(), columns).map_err(Into::into)
     }
 }
 
